@@ -46,3 +46,127 @@ def setup_cg(I):
 contract(f"{DM}._convert_gamma_parameters", setup=setup_cg,
     ensures={"mean_is_alpha_over_beta": lambda c, q: toz3(c.result[0]) / toz3(c.result[1]) == c.mean,
              "cov_squared_is_one_over_alpha": lambda c, q: 1 / toz3(c.result[0]) == c.cov * c.cov})
+
+# De Moor: the event's probability is the demand bin of the event's demand component; independent of state and action
+def setup_dm_rep(I):
+    cls = I.load_module("mdpax.problems.perishable_inventory.de_moor_single_product").globals["DeMoorSingleProductPerishable"]
+    D = z3.Int("max_demand"); I.assume(D >= 1); DP = z3.Function("demand_probabilities", z3.IntSort(), z3.RealSort())
+    p = Obj(cls, {"max_demand": D, "demand_probabilities": SArr((D + 1,), lambda idx: DP(toz3(idx[0])))}, label="problem")
+    d = z3.Int("demand"); I.assume(z3.And(d >= 0, d <= D))
+    return Ctx(self=p, _args=[arr_from_list([z3.Int("s0")]), arr_from_list([z3.Int("q")]), arr_from_list([d])], DP=DP, d=d)
+def scalar(v): return toz3(v.get(tuple(0 for _ in v.shape)) if isinstance(v, SArr) else v)
+contract(f"{DM}.random_event_probability", setup=setup_dm_rep, ensures={"is_bin_of_the_demand": lambda c, q: scalar(c.result) == c.DP(c.d)})
+
+# ------------------------------------------------------------------ Forest
+FO = "mdpax.problems.forest.Forest"
+def setup_fo_init(I):
+    cls = I.load_module("mdpax.problems.forest").globals["Forest"]
+    p_ = z3.Real("p"); I.assume(z3.And(p_ >= 0, p_ <= 1))            # the validated domain (ForestConfig.__post_init__, C20)
+    cfg = Obj("cfg", {"S": z3.Int("S"), "r1": z3.Real("r1"), "r2": z3.Real("r2"), "p": p_}, label="config")
+    I.assume(cfg.attrs["S"] >= 1)
+    o = Obj(cls, {}, label="problem")
+    I.call(I.get_func(f"{FO}.__init__").bind(o), [cfg], {})          # real constructor builds the table (spaces come from the real _construct_* too)
+    act, ev = z3.Ints("action event"); I.assume(z3.And(act >= 0, act <= 1, ev >= 0, ev <= 1))
+    return Ctx(self=o, _args=[arr_from_list([z3.Int("age")]), arr_from_list([act]), arr_from_list([ev])], p=p_, act=act, ev=ev, I=I)
+def fo_prob(c, act, ev):
+    return toz3(c.I.call(c.I.getattr(c.self, "random_event_probability"), [arr_from_list([z3.Int("age")]), arr_from_list([act]), arr_from_list([ev])], {}))
+contract(f"{FO}.random_event_probability", setup=setup_fo_init,
+    ensures={"fire_probability_p_when_waiting_0_when_cutting": lambda c, q: toz3(c.result) == z3.If(c.act == 0, z3.If(c.ev == 1, c.p, 1 - c.p), z3.If(c.ev == 1, z3.RealVal(0), z3.RealVal(1))),
+             "nonnegative": lambda c, q: toz3(c.result) >= 0,
+             "row_sums_to_one": lambda c, q: fo_prob(c, c.act, z3.IntVal(0)) + fo_prob(c, c.act, z3.IntVal(1)) == 1})
+
+# ------------------------------------------------------------------ Mirjalili
+MJ = "mdpax.problems.perishable_inventory.mirjalili_platelet.MirjaliliPlateletPerishable"
+def mj_obj(I, m=None):
+    cls = I.load_module("mdpax.problems.perishable_inventory.mirjalili_platelet").globals["MirjaliliPlateletPerishable"]
+    D = z3.Int("max_demand"); I.assume(D >= 1)
+    NW = z3.Function("negbin_n", z3.IntSort(), z3.RealSort()); DW = z3.Function("negbin_delta", z3.IntSort(), z3.RealSort())
+    attrs = {"max_demand": D, "weekday_demand_negbin_n": SArr((7,), lambda idx: NW(toz3(idx[0]))), "weekday_demand_negbin_delta": SArr((7,), lambda idx: DW(toz3(idx[0])))}
+    if m is not None:
+        attrs.update({"max_useful_life": m, "useful_life_at_arrival_distribution_c_0": arr_from_list([z3.Real(f"c0_{i}") for i in range(m - 1)]),
+                      "useful_life_at_arrival_distribution_c_1": arr_from_list([z3.Real(f"c1_{i}") for i in range(m - 1)])})
+    return Obj(cls, attrs, label="problem"), D, NW, DW
+def setup_mj_p(I):
+    o, D, NW, DW = mj_obj(I, 2); w = z3.Int("w!"); 
+    for k in range(7): I.assume(z3.And(NW(k) > 0, DW(k) > 0))
+    return Ctx(self=o, _args=[], NW=NW, DW=DW)
+def post_mj_p(c, q):
+    w = z3.Int("w!p"); q.hyps += [w >= 0, w <= 6, c.NW(w) > 0, c.DW(w) > 0]
+    pw = toz3(c.self.attrs["weekday_demand_negbin_p"].get((w,)))
+    return z3.And(pw == c.NW(w) / (c.NW(w) + c.DW(w)),                              # success probability n / (n + delta)
+                  c.NW(w) * (1 - pw) / pw == c.DW(w))                                 # hence NegBin(total_count=n, probs=1-p) has mean n(1-p)/p = delta
+contract(f"{MJ}._setup_before_space_construction", setup=setup_mj_p, ensures={"success_probability_and_mean_delta": post_mj_p})
+def setup_mj_dp(I):
+    o, D, NW, DW = mj_obj(I); PW = z3.Function("negbin_p", z3.IntSort(), z3.RealSort())
+    o.attrs["weekday_demand_negbin_p"] = SArr((7,), lambda idx: PW(toz3(idx[0])))
+    w = z3.Int("weekday"); I.assume(z3.And(w >= 0, w <= 6))
+    return Ctx(self=o, _args=[w], D=D, NW=NW, PW=PW, w=w, I=I)
+def nb(c, k): return c.I.dist["NBPMF"](c.NW(c.w), 1 - c.PW(c.w), k)
+def nb_facts(c, pts):
+    """assumed contract of a pmf: values >= 0 and every partial sum <= 1 (instantiated where needed)"""
+    return [nb(c, k) >= 0 for k in pts] + [R.mk("sum", c.D, lambda k: nb(c, k)) <= 1, R.mk("sum", c.D, lambda k: nb(c, k)) >= 0]
+def post_mj_bins(c, q):
+    d = z3.Int("d!m"); q.hyps += [d >= 0, d < c.D]
+    return z3.And(toz3(c.result.shape[0]) == c.D + 1, toz3(c.result.get((d,))) == nb(c, d))
+def mj_unroll(c): return R.mk("sum", c.D + 1, lambda k: nb(c, k)) == R.mk("sum", c.D, lambda k: nb(c, k)) + nb(c, c.D)      # one unrolling of the partial sum
+contract(f"{MJ}._calculate_demand_probabilities", setup=setup_mj_dp,
+    ensures={"bins_are_negative_binomial_pmf_with_total_count_n_probs_1_minus_p": post_mj_bins,
+             "last_bin_is_censored_tail": lambda c, q: (q.hyps.append(mj_unroll(c)), toz3(c.result.get((c.D,))) == 1 - R.mk("sum", c.D, lambda k: nb(c, k)))[1],
+             "sums_to_one": lambda c, q: (q.hyps.append(mj_unroll(c)), R.mk("sum", c.D + 1, lambda i: toz3(c.result.get((i,)))) == 1)[1],
+             "nonnegative": lambda c, q: (lambda d: (q.hyps.extend([d >= 0, d <= c.D, mj_unroll(c)] + nb_facts(c, [d])), toz3(c.result.get((d,))) >= 0)[1])(z3.Int("d!n"))})
+def setup_mj_logits(m):
+    def setup(I):
+        o, D, NW, DW = mj_obj(I, m); qn = z3.Int("order")
+        return Ctx(self=o, _args=[arr_from_list([qn])], m=m, qn=qn, c0=[z3.Real(f"c0_{i}") for i in range(m - 1)], c1=[z3.Real(f"c1_{i}") for i in range(m - 1)])
+    return setup
+def logit_spec(c, j):
+    """stock ordering: position 0 = youngest (remaining life m) ... position m-1 = oldest (life 1, logit 0); life L in 2..m has logit c0[L-2] + c1[L-2]*order"""
+    L = c.m - j
+    return z3.RealVal(0) if L == 1 else c.c0[L - 2] + c.c1[L - 2] * z3.ToReal(c.qn)
+contract(f"{MJ}._get_multinomial_logits", scenarios=[(f"m{m}.", setup_mj_logits(m)) for m in range(1, 6)],
+    ensures={"logits_linear_in_order_reversed_to_stock_ordering": lambda c, q: z3.And(z3.BoolVal(concrete_int(c.result.shape[0]) == c.m), *[scalar(A.arr_subscript(c.result, (j,))) == logit_spec(c, j) for j in range(c.m)])})
+from pyvc.models import arrays as A
+def setup_mj_rec(m):
+    def setup(I):
+        o, D, NW, DW = mj_obj(I, m); qn = z3.Int("order"); rec = [z3.Int(f"r{i}") for i in range(m)]
+        I.assume(z3.And(qn >= 0, *[r >= 0 for r in rec]))
+        return Ctx(self=o, _args=[arr_from_list([qn]), arr_from_list(rec)], m=m, qn=qn, rec=rec, c0=[z3.Real(f"c0_{i}") for i in range(m - 1)], c1=[z3.Real(f"c1_{i}") for i in range(m - 1)], I=I)
+    return setup
+def mult_spec(c): return c.I.dist["MULT"][c.m](*[logit_spec(c, j) for j in range(c.m)], c.qn, *c.rec)
+contract(f"{MJ}._calculate_received_order_probabilities", scenarios=[(f"m{m}.", setup_mj_rec(m)) for m in range(1, 6)],
+    ensures={"multinomial_pmf_if_split_sums_to_order_else_zero": lambda c, q: scalar(c.result) == z3.If(sum(c.rec[1:], c.rec[0]) == c.qn, mult_spec(c), z3.RealVal(0))})
+def setup_mj_rep(m):
+    def setup(I):
+        o, D, NW, DW = mj_obj(I, m); PW = z3.Function("negbin_p", z3.IntSort(), z3.RealSort()); o.attrs["weekday_demand_negbin_p"] = SArr((7,), lambda idx: PW(toz3(idx[0])))
+        for nm in ("state", "action", "random_event"): o.attrs[f"{nm}_component_lookup"] = I.call(I.getattr(o, f"_construct_{nm}_component_lookup"), [], {})
+        w, qn, d = z3.Ints("weekday order demand"); rec = [z3.Int(f"r{i}") for i in range(m)]; stock = [z3.Int(f"s{i}") for i in range(m - 1)]
+        I.assume(z3.And(w >= 0, w <= 6, qn >= 0, d >= 0, d < D, *[r >= 0 for r in rec]))
+        return Ctx(self=o, _args=[arr_from_list([w] + stock), arr_from_list([qn]), arr_from_list([d] + rec)], m=m, qn=qn, rec=rec, d=d, w=w, D=D, NW=NW, PW=PW,
+                   c0=[z3.Real(f"c0_{i}") for i in range(m - 1)], c1=[z3.Real(f"c1_{i}") for i in range(m - 1)], I=I)
+    return setup
+contract(f"{MJ}.random_event_probability", scenarios=[(f"m{m}.", setup_mj_rep(m)) for m in range(1, 6)],
+    ensures={"censored_negbin_of_the_weekday_times_multinomial_split_of_the_order": lambda c, q:
+                 scalar(c.result) == nb(c, c.d) * z3.If(sum(c.rec[1:], c.rec[0]) == c.qn, mult_spec(c), z3.RealVal(0))})
+
+# ------------------------------------------------------------------ Hendrix: initial value = expected one-step sales revenue under the event distribution
+HX = "mdpax.problems.perishable_inventory.hendrix_two_product.HendrixTwoProductPerishable"
+def setup_hx_iv(I):
+    cls = I.load_module("mdpax.problems.perishable_inventory.hendrix_two_product").globals["HendrixTwoProductPerishable"]
+    nE = z3.Int("n_events"); I.assume(nE >= 1); pa, pb = z3.Reals("sales_price_a sales_price_b")
+    EVS = z3.Function("event", z3.IntSort(), z3.IntSort(), z3.IntSort()); PRH = z3.Function("P_event_given_state", z3.IntSort(), z3.RealSort())
+    ev = SArr((nE, 2), lambda idx: EVS(toz3(idx[0]), toz3(idx[1])))
+    o = Obj(cls, {"_random_event_space": ev, "sales_prices": arr_from_list([pa, pb])}, label="problem")
+    seen = []
+    def prob(state, action, e):          # the four-case joint distribution is bounded-only (C13/C16 harness); here: whatever it returns for event row i
+        k = e.get((0,)); seen.append(action)
+        i = [a for a in k.children()][0] if is_z3(k) and k.num_args() == 2 else None
+        return PRH(i) if i is not None else PRH(z3.Int("?"))
+    o.attrs["random_event_probability"] = Builtin(prob, "random_event_probability")
+    return Ctx(self=o, _args=[arr_from_list([z3.Int("s0"), z3.Int("s1")])], nE=nE, pa=pa, pb=pb, EVS=EVS, PRH=PRH)
+contract(f"{HX}.initial_value", setup=setup_hx_iv,
+    ensures={"expected_one_step_sales_revenue": lambda c, q: toz3(c.result) == R.mk("sum", c.nE, lambda i: c.PRH(i) * (z3.ToReal(c.EVS(i, 0)) * c.pa + z3.ToReal(c.EVS(i, 1)) * c.pb))})
+# other problems inherit Problem.initial_value == 0.0
+def setup_iv0(I):
+    cls = I.load_module("mdpax.problems.forest").globals["Forest"]
+    return Ctx(self=Obj(cls, {}, label="problem"), _args=[arr_from_list([z3.Int("s0")])])
+contract("mdpax.core.problem.Problem.initial_value", setup=setup_iv0, ensures={"zero": lambda c, q: toz3(c.result) == 0})
